@@ -62,6 +62,7 @@ class TensorV(V):
     shape: tuple[Dim, ...]
     dtype: str = "float"  # 'float' | 'int' | 'bool' | 'any'
     lay: tuple | None = None  # per axis: layout.Layout | None  (see sa/layout.py); None = all unknown
+    val: tuple | None = None  # index tensors (arange ...): the layout of the index space its *values* enumerate
 
     def __repr__(self) -> str:
         return "T" + fmt_shape(self.shape)
@@ -358,8 +359,12 @@ MAX_DEPTH = 14
 MAX_UNROLL = 12
 
 
+STATS = {"interpreters": 0, "calls": 0, "paths_forked": 0, "shape_errors": 0}
+
+
 class Interp:
     def __init__(self, repo: Repo):
+        STATS["interpreters"] += 1
         self.repo = repo
         self.paths = 0
         self.trace: list[str] = []
@@ -386,6 +391,7 @@ class Interp:
     # ---- calling user functions
     def call(self, fi: FuncInfo, args: list[V], kwargs: dict[str, V], st: State, selfv: V | None = None, depth: int = 0) -> Iterator[tuple[V, State]]:
         """yields one (return value, state) per non-raising path"""
+        STATS["calls"] += 1
         if depth > MAX_DEPTH:
             yield self.unk(f"call depth at {fi.qualname}"), st
             return
@@ -482,6 +488,7 @@ class Interp:
 
     def fork(self, st: State) -> State:
         self.paths += 1
+        STATS["paths_forked"] += 1
         if self.paths > MAX_PATHS:
             raise PathLimit()
         return st.copy()
